@@ -20,6 +20,7 @@ from concurrent.futures import ThreadPoolExecutor
 
 VERIF = os.path.dirname(os.path.dirname(os.path.abspath(__file__)))
 REPO = os.environ.get("VERIF_REPO", "/repo")
+OUT = os.environ.get("VERIF_OUT", VERIF)  # evidence / replays go here (self-test runs redirect it)
 PY = os.environ.get("VERIF_PY", "/venv/bin/python")
 NPROC = int(os.environ.get("VERIF_NPROC", "16"))
 MAX_SAMPLES = 6
@@ -167,7 +168,7 @@ def main(argv):
     lines = []
     for sig, vs in kf_seen.items():
         lines.append(f"KNOWN-FINDING: property={pid} {open_keys[sig]['what']} [{sig}; seen {len(vs)}x, e.g. {vs[0]['msg'][:160]}]")
-    rdir = os.path.join(VERIF, "replays", pid)
+    rdir = os.path.join(OUT, "replays", pid)
     for sig, vs in real.items():
         os.makedirs(rdir, exist_ok=True)
         v = vs[0]
@@ -228,8 +229,8 @@ def main(argv):
             "wall_s": round(wall, 2),
             "violations": sum(len(v) for v in real.values()),
         }
-        os.makedirs(os.path.join(VERIF, "evidence"), exist_ok=True)
-        with open(os.path.join(VERIF, "evidence", f"{pid}.json"), "w") as f:
+        os.makedirs(os.path.join(OUT, "evidence"), exist_ok=True)
+        with open(os.path.join(OUT, "evidence", f"{pid}.json"), "w") as f:
             json.dump(ev, f, indent=1, default=str)
 
     for ln in lines:
